@@ -1,1 +1,10 @@
 import ThriftVerif.Props.C03
+#print axioms Props.C03.grammar_wf
+#print axioms Props.C03.peg_total
+#print axioms Props.C03.parse_total
+#print axioms Props.C03.field_ids
+#print axioms Props.C03.field_ids_written
+#print axioms Props.C03.enum_values
+#print axioms Props.C03.annotations_append
+#print axioms Props.C03.annotations_keys_first_occurrence
+#print axioms Props.C03.literal_unescape
